@@ -81,14 +81,14 @@ def tasks_c01(tier, seed):
 def tasks_c03(tier, seed):
     ts = seq("c03s", tier, shards=4)
     scens = ["S1", "S2", "S3Reset", "S3ResetAll", "S3TokenEvent", "S3TokenEventWithID", "S3TokenReset", "S4", "S4q", "S6", "S7", "S8", "S8r", "S9",
-             "S10", "S11", "Q6", "QEshutdown", "QEshutdownBusy"]
+             "S10", "S11", "S12", "Q6", "QEshutdown", "QEshutdownBusy"]
     if tier == "quick":
         for s in scens:
             big = s in ("S1", "S2", "Q6", "S8r", "QEshutdownBusy", "S9")
             ts += explore(s, "w1-in4-default-direct", 2, shards=4 if big else 1, timeout="100s")
             if s == "QEshutdownBusy":
                 continue  # two workers: thorough tier only (1.5 million schedules at bound 1)
-            if s in ("S8", "S8r", "S4q", "S9"):
+            if s in ("S8", "S8r", "S4q", "S9", "S12"):
                 ts += explore(s, CFG_DEFAULT, 1, shards=2, timeout="100s")
             elif s != "Q6":
                 ts += explore(s, CFG_DEFAULT, 1 if big else 2, shards=2 if big else 1, timeout="100s")
@@ -174,8 +174,23 @@ def tasks_c11(tier, seed):
     return ts
 
 
+def SH_TASKS(tier, race=False):
+    """store.Handler under interleavings: foreign writers, a fetching client and the change handler's events."""
+    ts = []
+    w1, w2 = "w1-in4-default-direct", CFG_DEFAULT
+    if tier == "quick":
+        for typ in ("model", "collection"):
+            ts += explore("SH1-mock-" + typ, w2, 1 if race else 2, shards=4, race=race, timeout="100s")
+        ts += explore("SH1-badger-prefix-collection", w1, 1, shards=4, race=race, timeout="100s")
+    else:
+        for typ in ("model", "collection"):
+            ts += explore("SH1-mock-" + typ, w2, 2 if race else 3, shards=8, race=race, timeout="10m")
+            ts += explore("SH1-badger-prefix-" + typ, w1 if race else w2, 1 if race else 2, shards=8, race=race, timeout="10m")
+    return ts
+
+
 def tasks_c10(tier, seed):
-    return seq("c10", tier, shards=16)
+    return seq("c10", tier, shards=12) + SH_TASKS(tier)
 
 
 def tasks_c20(tier, seed):
@@ -226,7 +241,9 @@ def tasks_c16(tier, seed):
     ts += explore("S8", w1, b, race=True, timeout=to) + explore("S4q", w1, b, race=True, timeout=to)
     # life-cycle races: double Shutdown, double Serve, Shutdown during the start-up of Serve
     ts += explore("S9", w1, b, race=True, shards=2, timeout=to) + explore("S10", CFG_DEFAULT, 2, race=True, timeout=to) + explore("S11", CFG_DEFAULT, 2, race=True, timeout=to)
+    ts += explore("S12", w1, b, race=True, shards=2, timeout=to)
     ts += STORE_RACE_TASKS(tier)
+    ts += SH_TASKS(tier, race=True)
     return ts
 
 
@@ -328,7 +345,7 @@ MANIFEST_TEXT = {
             "level": "Every sequence of <=3 (4 thorough) event calls over 13 actions in request handlers and With callbacks, with 4 apply-handler modes, 5 listener placements and 3 resource types; one global log of apply/publish/listener steps is compared with a reference log.",
             "note": "Cross-callback ordering on the connection follows from C02 (per-group order) and program order checked here."},
     "C10": {"engine": "seq", "technique": "bounded-exhaustive enumeration of before/after value pairs and mutation histories through the real store handler, replayed by a reference RES client cache and compared with a fresh get",
-            "level": "All ordered pairs of collections of length <=4 over three values (14 641 pairs), of richer collections and of models over three keys, plus mutation histories of length <=3 over two ids, for 20 handler configurations (type x transformer x default); each mutation runs through mockstore, OnChange, the store handler's diff and the real Service; the events are applied to the pre-mutation get by a strict reference client (indexes must be in range, no-op changes rejected) and the result must equal a fresh get.",
+            "level": "All ordered pairs of collections of length <=4 over three values (14 641 pairs), of richer collections and of models over three keys, plus mutation histories of length <=3 over two ids, for 24 handler configurations (type x transformer x default); each mutation runs through mockstore, OnChange, the store handler's diff and the real Service; the events are applied to the pre-mutation get by a strict reference client (indexes must be in range, no-op changes rejected) and the result must equal a fresh get. In addition (beyond the property's quantifier) scenario SH1 explores every interleaving, up to the preemption bound, of foreign store writers, a fetching client and the change handler on mockstore and badgerstore: the client that takes the get reply at its place in the publish order and applies the later events must equal a fresh get.",
             "note": "Quick tier uses the full pair sets for the IDTransformer configuration and reduced sets for the others."},
     "C11": {"engine": E1, "technique": "bounded-exhaustive operation histories against a map model + stateless model checking of 2-3 contending threads with a porcupine linearizability check on every execution",
             "level": "Sequential: every well-formed history up to the depth bound for mockstore and four badgerstore configurations, compared step by step with a Go map and the expected callback list. Concurrent: every interleaving (preemption bound 2, 3 thorough) of three small transaction programs on colliding ids; each execution's call/return history is checked with porcupine against a per-id register model, plus a lock-exclusion monitor, callback thread/count/chain checks and the final content.",
